@@ -117,10 +117,7 @@ def _reciprocal(ctx, z):
     if ctx._fixed_precision:
         return ctx.one / z
     prec = 2*ctx.prec
-    if ctx._fixed_precision:
-        return ctx.one / z
-    prec = 2*ctx.prec
-    if not (ctx.isinf(z) or ctx.isnan(z)) and abs(ctx.mag(z)) <= 1:
+    if not (ctx.isinf(z) or ctx.isnan(z)) and abs(ctx.mag(z)) <= 2:
         for c in (ctx.one, -ctx.one, ctx.j, -ctx.j):
             d = ctx.fsub(z, c, exact=True)
             if d:
